@@ -51,7 +51,7 @@ def setter_copy_rule(prog: Program, res: Results, rid: str, r1) -> None:
                 f"referenced from another document, then resolves names there against this one")
 
 
-def run(prog: Program) -> Results:
+def run(prog: Program, _no_c10: bool = False) -> Results:
     res = Results("C11")
     getter = prog.func("Identifier.value")
     setter = prog.func("Identifier.value#setter")
@@ -212,7 +212,57 @@ def run(prog: Program) -> Results:
         r3.ob(ok, {"owner_chain": [norm(c) for c in calls]})
         if not ok:
             res.add("R-C11-3", (arc.key, "owner chain not recomputed"), arc.loc(), "attach_resolution_context does not call scopes_for_owner(owner)")
+        else:
+            # with an owner, every way out of the function has recomputed the chain first
+            cn = acfg.containing(calls[0])
+            for n in acfg.nodes:
+                if n.kind == "return":
+                    r3.instances += 1
+                    ok = acfg.all_paths_pass(n, cut_nodes=[cn] if cn is not None else [], cut_edges=no_owner)
+                    r3.ob(ok, {"return": norm(n.ast), "after_recomputation_or_without_owner": ok})
+                    if not ok:
+                        res.add("R-C11-3", (arc.key, "return before the owner's chain is recomputed"), arc.loc(n.ast),
+                                f"attach_resolution_context: `{norm(n.ast)}` is reachable with an owner but without scopes_for_owner(owner) having "
+                                f"run: an expression that already carries a chain keeps it, so after `del doc[\"a\"]` (or a new shadowing "
+                                f"binding) a reference reached once before still resolves — and is edited — against the old bindings")
 
+    # ---------------------------------------------------------------- R-C11-4 a resolved value keeps the chain of its definition site
+    r4 = res.rule("R-C11-4", "a value reached through a reference is never re-stamped: in the CLI target resolution no "
+                  "set_resolution_context/attach_resolution_context is applied to a local that may hold the result of following an "
+                  "identifier (`_resolve_identifier_target`, `.value`) — its references must keep resolving where it was written", floor=2)
+    from sa.cfg import ReachingDefs
+    for f in prog.all_functions():
+        if f.module != "nix_manipulator/cli/manipulations.py":
+            continue
+        stamps = [c for c in walk_no_nested(f.node) if isinstance(c, ast.Call) and callee(c) in ("set_resolution_context", "attach_resolution_context")
+                  and c.args and isinstance(c.args[0], ast.Name)]
+        if not stamps:
+            continue
+        fcfg = CFG(f.node)
+        rd = ReachingDefs(fcfg)
+        for c in stamps:
+            r4.instances += 1
+            x = c.args[0].id
+            defs = rd.defs_for_use(c, x)
+            via_ref = [d for d in defs if not isinstance(d, str) and isinstance(d, ast.Assign) and (
+                (isinstance(d.value, ast.Call) and callee(d.value) == "_resolve_identifier_target") or
+                (isinstance(d.value, ast.Attribute) and d.value.attr == "value" and isinstance(d.value.value, ast.Name)))]
+            # re-assignments that only strip parentheses keep the provenance
+            if not via_ref:
+                for d in defs:
+                    if not isinstance(d, str) and isinstance(d, ast.Assign) and isinstance(d.value, ast.Call) and callee(d.value) == "_strip_parentheses" \
+                            and d.value.args and isinstance(d.value.args[0], ast.Name):
+                        inner = rd.defs_for_use(d.value, d.value.args[0].id)
+                        via_ref += [e for e in inner if not isinstance(e, str) and isinstance(e, ast.Assign) and isinstance(e.value, ast.Call)
+                                    and callee(e.value) == "_resolve_identifier_target"]
+            r4.ob(not via_ref, {"site": f.key, "stamp": norm(c)[:60]})
+            if via_ref:
+                res.add("R-C11-4", (f.key, "resolved value re-stamped with the call-site chain", x), f.loc(c),
+                        f"{f.key}: `{norm(c)[:60]}` may be applied to a value obtained by following a reference (`{norm(via_ref[0])[:50]}`): "
+                        f"`args = {{ a = v; }}` defined next to `v = \"1\"` but passed as `f args` below another `v` then has its `v` "
+                        f"looked up at the call site, and the edit lands on the wrong binding")
+    if _no_c10:
+        return res
     # shared clauses: chain orientation and with precedence (C10)
     from sa.rules import c10
     sub = c10.run(prog)
